@@ -3,15 +3,14 @@
    under every seed (`print`) and the expected observable (`denote_history`), rendered as ONE plain
    string per case that lib/c02.py parses; Go then runs exactly the printed texts.
 
-   line   := outcomes "|" codes "|" texts
+   line   := (pack (outcomes "|" codes), texts)      pack = the bytes in chunks of 7, each chunk one base-256 number after a leading 1
    outcomes := outcome (";" outcome)*          one per program of the history (stops after fuel / unsup)
    outcome  := "V:" dv ":" env | "E:" class ":" env | "F" | "U:" hex(why)
    dv       := "i" int | "s" hex | "n" | "a(" dv* ")"           (array items each followed by ",")
    env      := (hex(name) "=" dv ",")*
    codes    := code ("/" code)*                one per program
    code     := (opname "#" operand ",")*       operand: int | "x" hex(string) | ""  (spans omitted)
-   texts    := seedtexts ("/" seedtexts)*      one per seed
-   seedtexts:= (flag hex(text) ",")*           one per program; flag "!" = contains the `(..) !=` shape *)
+   texts    := list (per seed) of list (per program) of (flag, pack text); flag = contains the `(..) !=` shape *)
 From Coq Require Import String Ascii NArith ZArith List Bool.
 From DS Require Import Model.Str Model.Value Model.VM Model.Ast Model.Denote Model.Compile.
 Import ListNotations.
@@ -51,7 +50,7 @@ Definition op_name (o : opcode) : string :=
   | OpAdd => "add" | OpSub => "sub" | OpMul => "mul" | OpDiv => "div" | OpMod => "mod" | OpPow => "pow"
   | OpNullCoalescing => "nullCoalescing"
   | OpLt => "comp.lt" | OpLe => "comp.le" | OpEq => "comp.eq" | OpNe => "comp.ne" | OpGe => "comp.ge" | OpGt => "comp.gt"
-  | OpBitAnd => "&" | OpBitOr => "|" | OpAnd => "and" | OpNeg => "neg" | OpPos => "pos"
+  | OpBitAnd => "bitand" | OpBitOr => "bitor" | OpAnd => "and" | OpNeg => "neg" | OpPos => "pos"
   | OpDiceInit => "dice.init" | OpDiceSetTimes => "dice.setTimes" | OpDice => "dice"
   | OpHalt => "halt" | OpMarkDetail => "mark.detail"
   | OpJmp => "jmp" | OpJne => "jne" | OpJeDup => "je.dup"
@@ -78,18 +77,34 @@ Record c02_case := {
   k_env : denv          (* always [] from Python: a fresh VM *)
 }.
 
-Fixpoint texts_of (seed : N) (i : N) (ps : list stmt) : string :=
+(* a byte string as a list of numbers: each number is a leading 1 followed by up to 7 bytes in base 256
+   (small numbers are cheap to read back and to print) *)
+Fixpoint pack_go (s : string) (acc : N) (k : nat) : list N :=
+  match s with
+  | EmptyString => if (acc =? 1)%N then [] else [acc]
+  | String c r =>
+    let acc' := (acc * 256 + N_of_ascii c)%N in
+    match k with
+    | O => acc' :: pack_go r 1%N 6
+    | S k' => pack_go r acc' k'
+    end
+  end.
+Definition pack (s : string) : list N := pack_go s 1%N 6.
+
+Fixpoint texts_of (seed : N) (i : N) (ps : list stmt) : list (bool * list N) :=
   match ps with
-  | [] => ""
+  | [] => []
   | p :: r =>
     let ws := mk_ws (seed + 7919 * i) in
-    (if paren_ne_flag ws p then "!" else "") ++ hex (print ws p) ++ "," ++ texts_of seed (i + 1) r
+    let toks := tokens ws p in
+    (paren_ne_scan None toks, pack (blanks GAny (N.shiftr (ws 0%nat) 3) ++ render ws toks 1)) :: texts_of seed (i + 1) r
   end.
 
-Definition c02_line (c : c02_case) : string :=
-  join ";" (map show_outcome (denote_history (k_fuel c) (k_cfg c) (k_progs c) (k_env c)))
-  ++ "|" ++ join "/" (map (fun p => show_code (compile p)) (k_progs c))
-  ++ "|" ++ join "/" (map (fun s => texts_of s 0 (k_progs c)) (k_seeds c)).
+(* (outcomes "|" codes) packed, texts per seed and program *)
+Definition c02_line (c : c02_case) : list N * list (list (bool * list N)) :=
+  (pack (join ";" (map show_outcome (denote_history (k_fuel c) (k_cfg c) (k_progs c) (k_env c)))
+         ++ "|" ++ join "/" (map (fun p => show_code (compile p)) (k_progs c))),
+   map (fun s => texts_of s 0 (k_progs c)) (k_seeds c)).
 
 Definition CFG2 (div0 mn mx : bool) : config :=
   {| cfg_ignore_div0 := div0; cfg_min_mode := mn; cfg_max_mode := mx; cfg_op_limit := 0;
